@@ -276,8 +276,11 @@ def run(ctx):
             plans = [(dict(flavour=flavour, keys='full'), 2, 'full'),
                      (dict(flavour=flavour, keyidx=[2, 3, 4, 7, 10, 14], query_between=True), 3, 'reduced')]
             if not quick:
-                plans = [(dict(flavour=flavour, keys='full'), 3, 'full'),
-                         (dict(flavour=flavour, keyidx=[2, 3, 4, 5, 7, 10, 11, 14], query_between=True), 4, 'reduced')]
+                # depth 3 over the full key universe and depth 4 over the reduced
+                # one are affordable for one flavour/implementation each
+                plans = [(dict(flavour=flavour, keys='full'), 3 if flavour == 'adapter' else 2, 'full'),
+                         (dict(flavour=flavour, keyidx=[2, 3, 4, 7, 10, 14], query_between=True),
+                          4 if (flavour == 'adapter' and impl == 'c') else 3, 'reduced')]
             for cfg, depth, label in plans:
                 r = bfs(ctx, impl, 'expand', cfg, int(ctx.opts.get('depth', depth)),
                         label='%s/%s' % (flavour, label))
